@@ -39,8 +39,8 @@ ASSUMPTIONS = [
     'as_array windows of a Frame are compared at value strength modulo NumPy row/column consolidation (ints kept within 2**31 in window specs)',
     'the name of a group / window container is not asserted; the class (Frame vs FrameGO) is recorded only',
 ]
-TIERS = {'quick': {'shards': 8, 'budget_s': 150, 'min_nontrivial': 20000},
-         'thorough': {'shards': 16, 'budget_s': 1500, 'min_nontrivial': 200000}}
+TIERS = {'quick': {'shards': 8, 'budget_s': 150, 'min_nontrivial': 40000},
+         'thorough': {'shards': 16, 'budget_s': 1500, 'min_nontrivial': 400000}}
 ANCHORS = {
     'static_frame.core.frame': ['Frame._axis_group_loc_items', 'Frame._axis_group_sort_items', 'Frame._axis_group_iloc_items',
                                 'Frame._axis_group_labels_items', 'Frame._axis_window_items'],
@@ -71,7 +71,7 @@ _KEY_POOLS = {
     'int64big': ('int64', [BIG + 1, BIG, 2 ** 63 - 1, 1, 0]),
     'int8': ('int8', [1, 0, -1, 127, -128]),
     'uint8': ('uint8', [1, 0, 255, 3]),
-    'uint64big': ('uint64', [BIG + 1, BIG, 2 ** 64 - 1, 1, 0]),
+    'uint64': ('uint64', [1, 0, 3, 2 ** 40]),
     'float64': ('float64', [1.0, 0.0, -0.0, 1.5, -2.25, float('inf'), float('-inf'), 3.0]),
     'float32': ('float32', [1.0, 0.0, 1.5, -2.25, 0.5]),
     'complex128': ('complex128', [1 + 0j, 0j, 1 + 2j, -1.5j, 3 + 0j]),
@@ -83,13 +83,13 @@ _KEY_POOLS = {
     'obj_int': ('object', [1, 0, 2, 3, 2 ** 70]),
     'obj_str': ('object', ['1', '0', 'a', 'b', '']),
     'obj_num': ('object', [1, 0, True, False, 1.0, 2.5]),
-    'obj_mixed': ('object', [1, '1', None, 'None', True, 'True', 2.5, '2.5', 'a', b'x', 0, -0.0]),
+    'obj_mixed': ('object', [1, '1', None, 'None', True, 'True', 2.5, '2.5', 'a', 0, -0.0]),
     'obj_none': ('object', [None, 'a', 'None', 'b']),
     'obj_tuple': ('object', [(1, 2), (1, 3), (2, 2)]),
     'obj_tuple_mixed': ('object', [(1, 2), 'a', (1, 3), 1]),
 }
 _KEY_POOL_WEIGHTED = (['bool', 'int64', 'int64', 'int8', 'uint8', 'float64', 'float64', 'float32', 'complex128', '<U5', '<U5', 'S5',
-                       'M8[D]', 'M8[s]', 'm8[D]', 'int64big', 'uint64big', 'obj_int', 'obj_str', 'obj_num', 'obj_mixed', 'obj_mixed',
+                       'M8[D]', 'M8[s]', 'm8[D]', 'int64big', 'uint64', 'obj_int', 'obj_str', 'obj_num', 'obj_mixed', 'obj_mixed',
                        'obj_none', 'obj_tuple', 'obj_tuple_mixed'])
 _OTHER_DTYPES = ['bool', 'int64', 'float64', '<U5', 'object', 'M8[D]', 'int8', 'float32', 'complex128']
 _MEMBER_KINDS = ['auto', 'int', 'str', 'negint', 'IndexDate', 'hier2', 'mixed', 'float']
@@ -210,10 +210,11 @@ def _resolved_kind(dtypes):
     return 'object'
 
 
-def key_info(key_rows, dtypes):
+def key_info(key_rows, dtypes, two_d=False):
     """Input-class description of a key table: key_rows[m] = tuple of the member's key
-    cells, dtypes = dtype string per key line."""
-    single = len(dtypes) == 1
+    cells, dtypes = dtype string per key line; two_d: the library holds the keys in a 2-D
+    array (list / slice key, list of depths) even when there is one key line."""
+    single = len(dtypes) == 1 and not two_d
     kind = _resolved_kind(dtypes)
     flat = [c for row in key_rows for c in row]
     info = {'nkeys': len(dtypes), 'key_resolved': kind,
@@ -489,6 +490,11 @@ def gen_fgroup(rng, axis=None):
         first = rng.choice(_KEY_POOL_WEIGHTED)
         for k in keys:
             pools[k] = first if homog else rng.choice(_KEY_POOL_WEIGHTED)
+        if len({pools[k] for k in keys}) > 1:  # bytes keys are not mixed with other kinds (scope)
+            for k in keys:
+                if pools[k] == 'S5':
+                    pools[k] = '<U5'
+        for k in keys:
             dts[k] = _KEY_POOLS[pools[k]][0]
         cells = [[None] * n_oth for _ in range(n_mem)]
         for c in range(n_oth):
@@ -513,6 +519,10 @@ def gen_fgroup(rng, axis=None):
             choices = rng.sample(['int64', 'float64', 'bool', '<U5', 'obj_mixed', 'M8[D]', 'obj_num', 'int64big', 'complex128'], 3)
         else:
             choices = rng.sample(_KEY_POOL_WEIGHTED, 2)
+        # tuple cells cannot be held in a row array, bytes are not mixed with other kinds (scope)
+        choices = [c for c in choices if not c.startswith('obj_tuple')] or ['int64']
+        if len(choices) > 1:
+            choices = [c for c in choices if c != 'S5'] or ['int64']
         pools = _dtype_runs(rng, n_mem, choices)
         dts = [_KEY_POOLS[p][0] for p in pools]
         width = {'single': 1, 'few': rng.choice([2, 2, 3]), 'distinct': 99, 'free': 99}[shape]
@@ -651,7 +661,7 @@ def generate(ctx):
             for which in kinds3:
                 yield _win_case(rng, n, params, which)
     # (2) sampled
-    for _ in range(ctx.n(15000, 400000)):
+    for _ in range(ctx.n(30000, 800000)):
         r = rng.random()
         if r < 0.14:
             yield gen_sgroup(rng)
@@ -935,10 +945,7 @@ def _label_key_info(key_rows, multi):
             dts.append('float64')
         else:
             dts.append('object')
-    info = key_info(key_rows, dts)
-    if multi and len(dts) == 1:
-        info['unorderable'] = info['key_resolved'] == 'object'
-    return info
+    return key_info(key_rows, dts, two_d=multi)
 
 
 # -- Frame groups ----------------------------------------------------------------------
@@ -972,7 +979,7 @@ def _check_fgroup(case, ctx):
              'keyed_kind': spec.col_kind if axis == 0 else spec.row_kind, 'pools': '+'.join(sorted(set(p for p in case.get('pools', []) if p))),
              'cls': case.get('cls', 'Frame')}
     if axis == 0:
-        klass.update(key_info(key_rows, key_dtypes))
+        klass.update(key_info(key_rows, key_dtypes, two_d=multi))
     else:
         # one array holds the key row(s) across all columns: the resolved kind is that of all column dtypes
         klass.update(_axis1_key_info(spec, keys, key_rows))
@@ -992,13 +999,14 @@ def _check_fgroup(case, ctx):
     _judge_group_forms(ctx, ('fgroup', repr(spec), repr(case['layout']), axis, form, tuple(keys), case.get('cls')), klass, members, ref, multi, calls)
 
 
-def _axis1_key_info(spec, keys, key_rows):
+def _axis1_key_info(spec, keys, key_rows, two_d=False):
     """key rows run across all columns: every key line is held in an array of the row dtype."""
     kind = _resolved_kind(spec.dtypes) if spec.dtypes else 'object'
     info = key_info(key_rows, ['object'] * len(keys))
     info['key_resolved'] = kind
     flat = [c for row in key_rows for c in row]
     if len(keys) == 1:
+        # (a one-row list / slice key is held 1 x n and flattened by np.unique(axis=None))
         info['unorderable'] = kind == 'object' and _pairwise_unorderable([r[0] for r in key_rows])
     else:
         info['unorderable'] = kind == 'object'
@@ -1069,7 +1077,9 @@ def _judge_window_sequence(ctx, klass, members, labels, n, params, ref, got_pair
         # expanding windows: a prefix of the reference that contains every window inside the container
         required = sum(1 for lab, pos, kk, left in ref if left + params['size'] + kk * params['size_increment'] - 1 <= n - 1)
         ok = len(got) >= required and len(got) <= len(exp) and all(_win_eq(g, e) for g, e in zip(got, exp))
-        if not ok:
+        if not ok and not exp and got and all(_is_empty_obs(w) for _, w in got):
+            ctx.violation('window_beyond_end_yielded', detail={'expected': [], 'extra': canon.brief(got, 500)}, klass=k)
+        elif not ok:
             ctx.violation('window_sequence_mismatch', detail={'expected_prefix_of': canon.brief(exp, 900), 'required': required,
                                                               'got': canon.brief(got, 900)}, klass=k)
         return
